@@ -707,6 +707,15 @@ def r_iife(body):
             log.append(("R-iife", "(|| -> Result<_, E> { STMTS; Ok(()) })().map_err(|e| e.annotate(..))?;", "{ STMTS }"))
             body = body[:mo.start()] + new + body[cb + 1 + st.end():]
             continue
+        # value form with leading statements:  (|| -> Result<_, E> { STMTS; Ok(X?) })().map_err(|e| e.annotate(S))?   ->   { STMTS; X? }
+        # (every `?` inside the closure ends it with an error that the trailing `?` returns at once, annotation aside)
+        vt = re.match(r"\s*\)\s*\(\s*\)\s*\.map_err\(\s*\|\s*\w+\s*\|\s*\w+\.annotate\([^()]*(\([^()]*\))?[^()]*\)\s*\)\s*\?", body[cb + 1:], re.S)
+        vm = re.match(r"^(.*;)\s*Ok\((.*)\?\s*\)$", inner, re.S)
+        if vt and vm and not re.search(r"\breturn\b(?!\s+Err\()", inner):
+            new = "{ " + vm.group(1) + " " + vm.group(2).strip() + "? }"
+            log.append(("R-iife", "(|| -> Result<_, E> { STMTS; Ok(X?) })().map_err(|e| e.annotate(..))?", "{ STMTS; X? }"))
+            body = body[:mo.start()] + new + body[cb + 1 + vt.end():]
+            continue
         if not after or not im or ";" in inner:
             raise Unsupported("R-iife: only `(|| -> Result<_, E> { Ok(X?) })()`, the statement form ending in Ok(()) and the whole-body form are rewritten")
         new = "(" + im.group(1).strip() + ")"
